@@ -718,6 +718,10 @@ func (c *CharSet) addCategory(categoryName string, negate, caseInsensitive bool)
 // Adds to the class any case-equivalence versions of characters already
 // in the class. Used for case-insensitivity.
 func (c *CharSet) addCaseEquivalences() {
+	// the subtracted class takes characters out case-insensitively too
+	if c.sub != nil {
+		c.sub.addCaseEquivalences()
+	}
 	// we already have all case equiv
 	if c.anything {
 		return
